@@ -2,7 +2,7 @@
 import sys, os
 sys.path.insert(0, os.path.dirname(os.path.dirname(os.path.abspath(__file__))))
 from aovc.check import run_check
-from contracts import tomography
+from contracts import slopecov, tomography
 
 
 def build(chk):
@@ -10,8 +10,11 @@ def build(chk):
     chk.math_lemmas.append("Gauss-Markov: a linear map R satisfying the normal equations R C_oo = C_no (on the retained subspace) minimises E|s_on - R s_off|^2 over all linear maps")
     tomography.obligations(chk)
     chk.bounded_native("method wrapper: follows rebuilds of the covariance matrix (no stale reconstructor); end to end through the builder the reconstructor satisfies the normal equations on the retained subspace", "method", "one 3-WFS system with a rebuild; 5 built systems (guide star in the target direction at another altitude / mask layout / wavelength, true duplicate, no coincidence) x 2 conditionings, tolerance 2e-3 max|C|", "aotools/turbulence/slopecovariance.py:CovarianceMatrix.make_tomographic_reconstructor")
+    # end-to-end clause: the matrix the reconstructor is computed from is the builder's; its assembly / mirror contract (C01) is re-checked here
+    with chk.borrow("C01"):
+        slopecov.assembly_obligations(chk, 3, 2, mp=False)
     chk.not_decided.append("'holds to rounding' for well-conditioned matrices (conditioning / rounding analysis)")
-    chk.not_decided.append("end-to-end clause (all geometries through the covariance builder) is C01 composed with this contract")
+    chk.notes.append("end-to-end clause (all geometries through the covariance builder) is C01 composed with this contract: C01's assembly / mirror obligations are re-generated here, its kernel / geometry obligations are in C01's own check")
 
 
 if __name__ == "__main__":
